@@ -22,6 +22,13 @@ func Build(pos string, sx *E) *Program {
 		return Query("T", &Op{K: "where", X: sx})
 	case "project":
 		return Query("T", &Op{K: "project", Cols: []Col{{Name: id("r"), X: sx}}})
+	case "project-name":
+		// `project name`: the column is both the alias and the expression
+		if sx.K == "name" && len(sx.Parts) == 1 {
+			n := sx.Parts[0]
+			return Query("T", &Op{K: "project", Cols: []Col{{Name: &n}, {Name: id("id")}}})
+		}
+		return Query("T", &Op{K: "project", Cols: []Col{{Name: id("r"), X: sx}}})
 	case "extend":
 		return Query("T", &Op{K: "extend", Cols: []Col{{Name: id("r"), X: sx}}})
 	case "extend-unnamed":
@@ -74,7 +81,7 @@ func Locate(pos string, st *sqlmini.Stmt) (*sqlmini.X, string) {
 			return nil, "no WHERE clause"
 		}
 		return sel.Where, ""
-	case "project":
+	case "project", "project-name":
 		return item(0)
 	case "extend", "extend-unnamed", "let":
 		return item(1)
